@@ -433,6 +433,67 @@ fn check() {
             run_sequence(&chk, &ctr, s, "fragment.reassemble", "inconsistent-total-same-id", Some(&goodv));
         });
     }
+    // ---- (4b) a frame that is being collected is not disturbed by a fragment that claims another total for its id:
+    //      every arrival order of the frame's 3 fragments x the stray at every position behind the first fragment x a
+    //      bystander frame with another id interleaved at every position: the frame comes out exactly once, complete
+    {
+        let mut id = 9u16;
+        let a_body = pattern(11, 55);
+        let a = frags_of(9, &mut id, a_body.clone()); // 3 fragments, id 9
+        let mut idb = 10u16;
+        let b_body = pattern(7, 99);
+        let b = frags_of(9, &mut idb, b_body.clone()); // 2 fragments, id 10
+        let mut strays: Vec<Bytes> = vec![];
+        for total in [2u8, 4, 5, 127, 128, 200, 255] {
+            for seq in [0u8, 1, 2, 3, 4, 126, 199, 254] {
+                if seq < total {
+                    strays.push(Bytes::from(vec![0, 9, total, seq, 0xEE, 0xEE]));
+                }
+            }
+        }
+        let mut cases3: Vec<Vec<Bytes>> = vec![];
+        for perm in permutations(3) {
+            for st in &strays {
+                for pos in 1..=3usize {
+                    let mut s: Vec<Bytes> = perm.iter().map(|&i| a[i].clone()).collect();
+                    s.insert(pos, st.clone());
+                    cases3.push(s.clone());
+                    // with the bystander's two fragments around the stray
+                    let mut s2 = s.clone();
+                    s2.insert(pos, b[0].clone());
+                    s2.insert(pos + 2, b[1].clone());
+                    cases3.push(s2);
+                }
+            }
+        }
+        let goodv = vec![a_body.to_vec(), b_body.to_vec()];
+        par_for(cases3.len(), |i| {
+            let s = &cases3[i];
+            ctr.seqs.fetch_add(1, Ordering::Relaxed);
+            let r = catch(|| {
+                let mut real: Fragments<TB> = Fragments::new(Duration::from_secs(3600));
+                s.iter().filter_map(|d| real.reassemble(d.clone()).map(|t| t.0.to_vec())).collect::<Vec<_>>()
+            });
+            let heads: Vec<String> = s.iter().map(|d| hex(&d[..4])).collect();
+            let replay = json!({"datagrams": s.iter().map(|d| hex(d)).collect::<Vec<_>>()});
+            match r {
+                Err(p) => chk.violation("fragment.reassemble", "inconsistent-total-same-id:panic", format!("{:?}: {p}", heads), replay),
+                Ok(outs) => {
+                    ctr.outcomes.add(&outs);
+                    let na = outs.iter().filter(|o| **o == goodv[0]).count();
+                    let nb = outs.iter().filter(|o| **o == goodv[1]).count();
+                    let with_b = s.len() > 4;
+                    if outs.iter().any(|o| !goodv.contains(o)) {
+                        chk.violation("fragment.reassemble", "inconsistent-total-same-id", format!("a frame that was never sent came out (datagram heads {:?})", heads), replay);
+                    } else if na != 1 {
+                        chk.violation("fragment.reassemble", "frame-disturbed-by-inconsistent-fragment", format!("the frame whose collection had begun came out {na} times (datagram heads {:?})", heads), replay);
+                    } else if with_b && nb != 1 {
+                        chk.violation("fragment.reassemble", "bystander-frame-disturbed-by-inconsistent-fragment", format!("the frame with another id came out {nb} times (datagram heads {:?})", heads), replay);
+                    }
+                }
+            }
+        });
+    }
     samples.push(json!({"malformed_mix": ["0009 03 00 ..", "0009 00 00 0102 (total=0)", "0009 03 01 ..", "0009 03 02 .."]}));
 
     // ---- (5) expiry sequences on the real clock (timeout 100 ms), alphabet of 5 events, all sequences of length <= 5 (quick 4)
@@ -467,7 +528,7 @@ fn check() {
         "exhaustive": true,
         "states": ctr.outcomes.len(), "transitions": steps, "traces_validated_against_impl": seqs,
         "evaluations": seqs, "distinct_nontrivial": ctr.outcomes.len(),
-        "rule": "datagram sequences fed to a fresh real Fragments instance and to the list reference, compared after every datagram. distinct = distinct output lists. grid: 13 MTUs x boundary sizes x {transparent buffer, real Frame}; all permutations of n<=6 (thorough 7) fragments x one duplicate of any fragment at any position; all arrival orders of 2-3 frames; 10 malformed datagrams (pairs of them) at every position; expiry sequences over 5 events",
+        "rule": "datagram sequences fed to a fresh real Fragments instance and to the list reference, compared after every datagram. distinct = distinct output lists. grid: 13 MTUs x boundary sizes x {transparent buffer, real Frame}; all permutations of n<=6 (thorough 7) fragments x one duplicate of any fragment at any position; all arrival orders of 2-3 frames; 10 malformed datagrams (pairs of them) at every position; a fragment claiming another total (7 totals x seq) for the id of a frame whose collection has begun, at every later position x every arrival order x a bystander frame: the frame still comes out exactly once; expiry sequences over 5 events",
         "grid_cells": grid_cells, "sequences": seqs, "datagrams_fed": steps,
         "expiry_sequences": expiry.0, "expiry_discarded_for_timing": expiry.1,
         "samples": samples,
